@@ -31,7 +31,8 @@ MIN_NONTRIVIAL_FRACTION = 0.2
 _int = st.one_of(st.integers(-9, 12), st.integers(-50, 50)).map(lambda n: str(n) if n >= 0 else "(%d)" % n)
 _float = st.sampled_from(["0.5", "2.567", "1.5", "0.0", "3.25", "1e3", "(-0.5)", "2.5"])
 _bool = st.sampled_from(["True", "False"])
-_strlit = st.sampled_from(["'abc'", "'True'", "'False'", "'a and b'", "' or '", "'x < y'", "\"it's\"", "''", "'not true'", "'ff'", "'12'", "' 7 '", "'3.5'", "'false'"])
+_strlit = st.sampled_from(["'abc'", "'True'", "'False'", "'a and b'", "' or '", "'x < y'", "\"it's\"", "''", "'not true'", "'ff'", "'12'", "' 7 '", "'3.5'", "'false'",
+                           "'a  b'", "'tab\there'", "'nb\u00a0sp'", "'  lead'", "'trail   '", "'x\u2003y'", "'1 +  1'", "'(1,2)'", "'#c'"])
 _const = st.sampled_from(["pi", "e", "tau", "inf"])
 ARITH = ["+", "-", "*", "/", "//", "%", "**"]
 CMP = ["==", "!=", "<", "<=", ">", ">="]
@@ -173,6 +174,7 @@ _CORNERS = [
     "7 // 2", "7 / 2", "(-7) // 2", "(-7) % 3", "7 % (-3)", "2 ** -1", "2 ** 0.5", "(-8) ** (1/3)", "0 ** 0", "1 / 0", "1 // 0", "1 % 0",
     "5 if 0 else 6", "5 if 1 else 1/0", "1/0 if 0 else 2", "[1, 2] + [3]", "(1, 2) * 2", "[1, 2][0]" if False else "[1, 2] == [1, 2]",
     "True + True", "True and False", "True or False", "not True", "true" if False else "False == 0", "pi + e", "tau / 2", "inf > 10", "-inf < 0",
+    "len('a  b')", "'a\tb' == 'a b'", "len('  ') + len('\u00a0')", "'x   y' + 'z'", "max('a  b', 'a b')",
     "abs(-3) + abs(3.5)", "bool([])", "bool([0])", "int(2.9)", "float(3)", "pow(2, 3)", "factorial(5) / factorial(3)", "sqrt(16) + pi",
 ]
 
@@ -195,6 +197,8 @@ def _eq(a, b):
         return False
     if isinstance(a, float):
         return (math.isnan(a) and math.isnan(b)) or a == b
+    if isinstance(a, complex):
+        return _eq(a.real, b.real) and _eq(a.imag, b.imag)
     if isinstance(a, (list, tuple)):
         return len(a) == len(b) and all(_eq(x, y) for x, y in zip(a, b))
     try:
